@@ -236,3 +236,9 @@ pub proof fn lemma_bytes_chunking(d: DecState, s: (World, bool), a: Seq<u8>, b: 
     lemma_pfold_concat(s, latin1(a), latin1(b));
     assert(latin1(a) + latin1(b) =~= latin1(a + b));
 }
+
+/// TRUSTED (std): two `&str` are equal exactly when their character sequences are (a `match` on a string literal
+/// compares values, `==` compares contents; Verus relates neither to the other)
+#[verifier::external_body]
+pub proof fn axiom_str_ext(a: &str, b: &str)
+    ensures (a@ == b@) == (a == b) {}
